@@ -89,6 +89,23 @@ pub fn has_reserved_numeric_name(v: &Value) -> bool {
     }
 }
 
+/// C20 on numbers inside a value: as_u64 / as_i64 / comparisons agree with the integer the number is.
+pub fn incoherent_number(v: &Value) -> Option<String> {
+    match v {
+        Value::Number(n) => {
+            if let Some(i) = n.as_i64() {
+                if i >= 0 && (n.as_u64() != Some(i as u64) || !n.is_u64() || !(*v == (i as u64)) || !(*v == i)) { return Some(format!("{:?}: as_i64 = {} but as_u64 = {:?}", n, i, n.as_u64())); }
+                if i < 0 && n.as_u64().is_some() { return Some(format!("{:?}: negative but as_u64 is Some", n)); }
+            }
+            if n.is_f64() && (n.as_i64().is_some() || n.as_u64().is_some()) { return Some(format!("{:?}: a float that is an integer", n)); }
+            None
+        }
+        Value::Cons(c) => incoherent_number(c.car()).or_else(|| incoherent_number(c.cdr())),
+        Value::Vector(xs) => xs.iter().find_map(incoherent_number),
+        _ => None,
+    }
+}
+
 pub fn nesting(v: &Value) -> usize {
     match v {
         Value::Cons(c) => {
@@ -542,6 +559,8 @@ pub fn classify(tok: &str, r: &str) -> Option<String> {
         "nil" => match d(r, 3) { 1 => sym("nil"), 0 => "val U".into(), _ => "val N".into() },
         "t" => if d(r, 4) == 1 { sym("t") } else { "val T".into() },
         "nilx" | "tt" | "T" | "NIL" | "a" | "ab" | "$x" | "..." | "a.b" | "nil.t" => sym(tok),
+        // `"` and `|` do not end a symbol: these are single symbols whatever nil and t mean
+        "t|" | "t\"a\"" | "nil|" | "nil\"a\"" | "t|x" | "tt|" => sym(tok),
         "nil:" | "a:" | "$x:" | "12:" | "x:y" | "a::" => {
             if tok == "12:" { return None; }
             if tok == "x:y" { return Some(sym(tok)); }
@@ -761,6 +780,16 @@ fn check_inner(line: &str, res: &str, t: &[&str], mut m: Vec<String>) -> Vec<Str
                 }
             }
             let fres = crate::ops::exec(&line.replacen(&format!(" {} ", src), " i5 ", 1));
+            // a failed read delivers no byte: apart from the I/O item itself, every item carries the position / spans it
+            // has on the stream that never fails
+            {
+                let ff: Vec<&str> = fres.split(" | ").collect();
+                let xx: Vec<&str> = items.iter().copied().filter(|i| *i != "io").collect();
+                if xx.len() <= ff.len() && xx.iter().zip(ff.iter()).any(|(a, b)| strip_pos(a) == strip_pos(b) && a != b) {
+                    m.push(format!("FAIL C19 after a failed read that delivered nothing, locations differ from the fault-free stream: {:?} vs {:?}", xx, ff));
+                    m.push("FAIL C11 after a failed read that delivered nothing, spans differ from the fault-free stream".into());
+                }
+            }
             let fi: Vec<String> = fres.split(" | ").map(strip_pos).collect();
             let xi: Vec<String> = items.iter().map(|s| strip_pos(s)).collect();
             let strip = |v: &[String]| -> Vec<String> { v.iter().map(|s| strip_dat(s)).collect() };
@@ -790,6 +819,16 @@ fn check_inner(line: &str, res: &str, t: &[&str], mut m: Vec<String>) -> Vec<Str
             let items: Vec<&str> = res.split(" | ").collect();
             if items.iter().any(|i| *i == "panic") { m.push("FAIL C03 parser panicked".into()); }
             if !utf8_payloads_ok(res) { m.push("FAIL C17 a parsed string/symbol/keyword is not valid UTF-8".into()); }
+            for it in &items {
+                let body = if let Some(b) = it.strip_prefix("val ") { Some(b.to_string()) } else if it.starts_with("dat ") { Some(strip_dat(it)[4..].to_string()) } else { None };
+                if let Some(body) = body {
+                    let v = dec_value(&mut body.split_whitespace());
+                    // "input nested more deeply than the documented limit … is rejected"
+                    if nesting(&v) > 128 { m.push(format!("FAIL C03 the parser returned a value nested {} levels deep", nesting(&v))); }
+                    // every number a parser returns is in normal form: the accessors and comparisons see the integer it is
+                    if let Some(bad) = incoherent_number(&v) { m.push(format!("FAIL C20 a parsed number is not coherent: {}", bad)); }
+                }
+            }
             for it in &items {
                 let f: Vec<&str> = it.split_whitespace().collect();
                 if f.first() == Some(&"err") && f.len() == 4 {
@@ -1253,6 +1292,17 @@ pub fn depth_main(args: &[String]) -> i32 {
             "to_value" => { let xs: Vec<u8> = (0..n).map(|i| (i % 10) as u8).collect(); let v = serde_lexpr::to_value(&xs).unwrap(); assert!(v.is_list()); std::mem::forget(v); }
             // conversions that do not build a Vec: a long list in an alist entry the target struct does not
             // know (skipped through IgnoredAny), IgnoredAny itself, and a self-describing target (untagged enum)
+            // clone_from between two long lists (what Vec<Value>::clone_from and friends forward to)
+            "clone_from" => {
+                let (mut a, b) = (build(n), build(n + 1));
+                a.clone_from(&b);
+                assert!(a == b);
+                let mut va = vec![build(n), Value::Null];
+                let vb = vec![build(n + 2), build(3)];
+                va.clone_from(&vb);
+                assert!(va == vb);
+                std::mem::forget(a); std::mem::forget(b); std::mem::forget(va); std::mem::forget(vb);
+            }
             // a panic that unwinds through a frame owning a long list: the list is dropped during unwinding and the
             // panic stays recoverable
             "drop_unwinding" => {
